@@ -277,7 +277,7 @@ class Effects:
                 continue
             if ch:
                 of, name, idx = ch[-1]
-                out.append(("loc", of, name, self._whole_after(t.proj, idx)))
+                out.append(("loc", of, name, self._whole_after(t.proj, idx), tuple((a, b) for a, b, _ in ch[:-1])))
                 continue
             whole = not any(p[0] in ("i", "ci", "sub", "elem") for p in t.proj)
             if t.base[0] == "param":
@@ -329,6 +329,7 @@ class Effects:
 
     def _summarise(self, fn):
         W, Wel, WP, R, RP, WU = set(), set(), set(), set(), set(), set()
+        RET = set()
         unknown = []
         calls = set()
 
@@ -349,6 +350,10 @@ class Effects:
                     else:
                         W.add(loc)
                         Wel.add(loc)
+                    if len(c) > 4:
+                        for anc in c[4]:
+                            W.add(anc)
+                            Wel.add(anc)
                 elif c[0] == "param":
                     WP.add(c[1])
                 elif c[0] == "upvar":
@@ -389,6 +394,11 @@ class Effects:
                 if "agg" in rv:
                     for o in rv["agg"]["ops"]:
                         read_operand(o)
+                        ac = self._arg_classes(fn, o)
+                        if ac and ac[1].get("mut"):
+                            for cc in ac[0]:
+                                if cc[0] == "param":
+                                    RET.add(cc[1])
                 if "discr" in rv:
                     add_read(self.classify(fn, Place(rv["discr"])))
                 if "repeat" in rv:
@@ -415,6 +425,8 @@ class Effects:
                     ret.add(("loc", tt.base[1], tt.base[2]))
                 else:
                     ret.add(("unknown",))
+        # a &mut parameter retained in a returned / constructed value may be written later through that value
+        WP |= RET
         return {"W": frozenset(W), "Wel": frozenset(Wel - Wwhole), "WP": frozenset(WP),
                 "MW": frozenset(MW), "MWP": frozenset(MWP), "R": frozenset(R), "RP": frozenset(RP),
                 "ret": frozenset(ret), "unknown": tuple(sorted(set(map(str, unknown))))[:20], "WU": frozenset(WU),
